@@ -82,8 +82,10 @@ def generate(seed, tier):
             ops.append(["other"])
         elif r < 0.13:
             ops.append(["refill", rw.randrange(2 ** 31), rw.choice(["noise", "randwalk", "sine+noise", "trend+noise"])])
-        elif r < 0.3:
+        elif r < 0.25:
             ops.append(["compute"])
+        elif r < 0.3:
+            ops.append(["wrapper", rw.choice(["compute_spectrum", "lpsd", "compute_single_bin"]), round(rw.uniform(0, 0.5), 5), rw.randrange(1, (40 if sim else N) + 1)])
         elif r < 0.6:
             a, b = sorted([rw.randrange(0, 64), rw.randrange(0, 64)])
             ops.append(["band", rw.choice(["bins", "bins", "single", "between", "all"]), a, b, round(rw.random(), 4)])
@@ -193,7 +195,23 @@ def execute(sc, out):
             out.sim_steps += 1
             try:
                 with clock.installed():
-                    if kind == "refill":
+                    if kind == "wrapper":
+                        import speckit as _sk
+
+                        kwargs = SC.analyzer_kwargs(cfg)
+                        if op[1] == "compute_single_bin":
+                            fw = op[2] * cfg["fs"]
+                            rw_ = _sk.compute_single_bin(buf, cfg["fs"], fw, L=min(op[3], len(x)), **kwargs)
+                            _check_against_reference(rw_, x, y, cfg, out, "wrapper_single", backend)
+                        else:
+                            rw_ = getattr(_sk, op[1])(buf, cfg["fs"], **kwargs)
+                            _check_against_reference(rw_, x, y, cfg, out, "wrapper_compute", backend)
+                            if full_raw is not None:
+                                d_ = SS.diff_fields(SS.raw_fields(rw_), full_raw, SS.RAW_CMP)
+                                if d_ is not None:
+                                    out.violate("wrapper_differs_from_analyzer", f"field={d_}", f"{op[1]}(data, fs, **kwargs) differs from SpectrumAnalyzer(...).compute() in {d_}")
+                        out.count("module_level_wrapper")
+                    elif kind == "refill":
                         newrec = SC.make_record(dict(sc["data"], rng=op[1], recipe=op[2]))
                         buf[...] = newrec
                         if buf.ndim == 2:
